@@ -43,4 +43,62 @@ Definition impl_ttv_dense (X : dense V) (dims : list nat) (vs : list (list V)) :
   let '(c', sz') := ttv_loop c sz (rev vs) in
   np_reshapeF v0 c' sz'.                       (* ttb.tensor(c, sz[0:n]); the scalar result is entry 0 of shape [] *)
 
+(* ---- tensor.innerprod / norm()^2 (tensor.py:722, 1152): x.dot(y) on the F-order ravel ---- *)
+Fixpoint dotv (x y : list V) : V :=
+  match x, y with a :: x', b :: y' => a * b + dotv x' y' | _, _ => v0 end.
+Definition impl_innerprod_dense (X Y : dense V) : V := dotv (ddata X) (ddata Y).
+Definition impl_normsq_dense (X : dense V) : V := dotv (ddata X) (ddata X).
+
+(* ---- tensor.ttm, single mode n (tensor.py:1532, "old version"): permute n to the front, reshape to a matrix,
+        multiply, reshape, permute back with argsort(order) ---- *)
+Definition ttm_order (N n : nat) : list nat := n :: seq 0 n ++ seq (S n) (N - S n).
+Definition impl_ttm_dense (X : dense V) (n : nat) (U : @matrix V) (J : nat) (tr : bool) : dense V :=
+  let s := dshape X in
+  let N := length s in
+  let order := ttm_order N n in
+  let newdata := np_transpose v0 X order in                                   (* self.permute(order).data *)
+  let second_dim := size (remove_at n s) in
+  let m2 := np_reshapeF v0 newdata [nth n s 0; second_dim] in
+  let Um := if tr then of_matrixT U (nth n s 0) J else of_matrix U J (nth n s 0) in   (* matrix.T  /  matrix *)
+  let prod := matmul Um m2 in
+  let newshape := J :: remove_at n s in
+  let Y := np_reshapeF v0 prod newshape in
+  np_transpose v0 Y (invperm order).                                           (* np.transpose(Y, np.argsort(order)) *)
+
+(* ---- khatrirao with reverse=True (khatrirao.py): P starts as the LAST matrix; each step P[a + I*b, r] = M[a,r] * P[b,r]
+        with M the next matrix towards the front, so the first matrix's row index runs fastest ---- *)
+Fixpoint zipmul (a b : list V) : list V :=
+  match a, b with x :: a', y :: b' => x * y :: zipmul a' b' | _, _ => [] end.
+Definition kr2 (M P : @matrix V) : @matrix V := flat_map (fun pr => map (fun mr => zipmul mr pr) M) P.
+Fixpoint kr_rev (Us : list (@matrix V)) : @matrix V :=
+  match Us with
+  | [] => []
+  | [U] => U
+  | U :: Us' => kr2 U (kr_rev Us')
+  end.
+
+(* ---- tensor.mttkrp (tensor.py:1008), factor list, the three branches ---- *)
+Definition impl_mttkrp_dense (X : dense V) (Us : list (@matrix V)) (n R : nat) : dense V :=
+  let s := dshape X in
+  let N := length s in
+  let szl := size (firstn n s) in
+  let szr := size (skipn (S n) s) in
+  let szn := nth n s 0 in
+  if Nat.eqb n 0 then
+    let Ur := kr_rev (skipn 1 Us) in
+    let Y := np_reshapeF v0 X [szn; szr] in
+    matmul Y (of_matrix Ur szr R)                                            (* Y @ Ur *)
+  else if Nat.eqb n (N - 1) then
+    let Ul := kr_rev (firstn (N - 1) Us) in
+    let Y := np_reshapeF v0 X [szl; szn] in
+    matmul (np_T Y) (of_matrix Ul szl R)                                     (* Y.T @ Ul *)
+  else
+    let Ul := kr_rev (skipn (S n) Us) in
+    let Ur := np_reshapeF v0 (of_matrix (kr_rev (firstn n Us)) szl R) [szl; 1; R] in
+    let Y := np_reshapeF v0 X [(szl * szn)%nat; szr] in
+    let Y2 := matmul Y (of_matrix Ul szr R) in
+    let Y3 := np_reshapeF v0 Y2 [szl; szn; R] in
+    tabulate [szn; R] (fun xr =>                                             (* V[:, [r]] = Y[:, :, r].T @ Ur[:, :, r] *)
+      sum_n v0 vadd szl (fun l => den Y3 [l; nth 0 xr 0; nth 1 xr 0] * den Ur [l; 0; nth 1 xr 0])).
+
 End Dense.
